@@ -40,6 +40,7 @@ PALETTES = [
 
 NAMES = {1: "alpha beta", 2: "Glucose (D)", 3: "x<y & z"}
 FORMULAS = {1: "C6H12O6", 2: "H2O", 3: "C10H12N5O13P3"}
+COMPS = {1: "c", 2: "e", 3: "p"}
 SUBSYS = {1: "Glycolysis", 2: "Transport, extracellular", 3: "S_ub"}
 
 
@@ -657,6 +658,11 @@ class ModelDriver:
                 o = self.get_met(model, x)
             else:
                 o = self.get_gene(model, x)
+            if field == "comp":
+                if x not in ("m1", "m2") or v not in COMPS:
+                    raise Skip("compartment edits: internal metabolites only")
+                o.compartment = COMPS[v]
+                return None
             if field == "name":
                 o.name = NAMES[v]
             elif field == "formula":
@@ -819,7 +825,10 @@ class ModelDriver:
                         note[x] = _note_token(ob.notes.get("tok", "0"))
                     except (TypeError, ValueError):
                         inexact.append("ann:%s:bad" % x)
-        attr = {x: {"name": 0, "formula": 0, "charge": 99, "subsys": 0} for x in RX + MET + GENE + GRP + ["MODEL"]}
+        attr = {x: {"name": 0, "formula": 0, "charge": 99, "subsys": 0,
+                    "comp": (1 if x in ("m1", "m2") else 2 if x in ("m3", "m4") else 0)}
+                for x in RX + MET + GENE + GRP + ["MODEL"]}
+        rc = {v: k for k, v in COMPS.items()}
         rn = {v: k for k, v in NAMES.items()}
         rf = {v: k for k, v in FORMULAS.items()}
         rs = {v: k for k, v in SUBSYS.items()}
@@ -830,6 +839,7 @@ class ModelDriver:
                     ob = lst.get_by_id(conc[x])
                     attr[x]["name"] = rn.get(ob.name, 0)
                     if kind == "mets":
+                        attr[x]["comp"] = rc.get(ob.compartment, -1)
                         attr[x]["formula"] = rf.get(ob.formula if isinstance(ob.formula, str) else "", 0)
                         ch = ob.charge
                         if ch is None:
